@@ -14,6 +14,7 @@
     DIFF <kind> line=<n> <details>        kind ∈ model, spec
 -/
 import Driver.Ops2
+import Driver.Kern
 
 open Decimal Driver
 
@@ -91,6 +92,10 @@ partial def loop (h : IO.FS.Stream) (out : IO.FS.Stream) (st : St) : IO Unit := 
     let toks := (line.drop 2).toString.splitOn " "
     let step := if line.startsWith "L " then doLoad st.env toks else doOp st.env st.ctx toks
     loop h out { st with pending := some step, pendingLine := line, ctx := step.ctx.getD st.ctx }
+  else if line.startsWith "K " then
+    out.putStrLn (doKern (line.drop 2).toString)
+    out.flush
+    loop h out st
   else if line.startsWith "#" || line == "" then
     loop h out st
   else do
